@@ -3,7 +3,7 @@
 # round 10: verify one sub-agent change from /tmp/r10/<Cxx>-out/<a|b>/ and store it under /verif/seeded/<seed name>/
 P=$1; V=$2; NAME=$3; shift 3
 [ $# -eq 0 ] && set -- $P
-O=/tmp/r10/$P-out/$V
+O=${RDIR:-/tmp/r10}/$P-out/$V
 T=/var/tmp/seedtmp-$$; mkdir -p $T; cp $O/patch.diff $O/demo.py $T/; [ -f $O/notes.md ] && cp $O/notes.md $T/
-sed -i "s#/tmp/r10/$P-wt#.#g" $T/demo.py
+sed -i "s#${RDIR:-/tmp/r10}/$P-wt#.#g" $T/demo.py
 tools/seed_verify.sh $T "$NAME" "$@"; rm -rf $T
